@@ -5,6 +5,7 @@ From PV Require Import Runner proofs.RunnerBase proofs.RunnerInv proofs.RunnerPr
 Local Open Scope Z_scope.
 
 Definition no_reload (e : event) : Prop := ∀ ds, e ≠ EvReload ds.
+Definition no_restart (e : event) : Prop := e ≠ EvRestart.
 
 Lemma reach_exec s evs : reach s → reach (exec s evs).
 Proof.
@@ -18,7 +19,7 @@ Lemma sys_count_ok s e s' r p :
   (running_count s' p <= running_count s p)%nat ∨ (running_count s' p <= pd_conc (def_or_zero (st_defs s') p))%nat.
 Proof.
   intros Hr Hs. rewrite !abs_running_count.
-  destruct (refine_step s e s' r (reach_inv _ Hr) Hs) as [[Ha _]|(re & Hre & _)].
+  destruct (refine_step s e s' r (reach_inv _ Hr) (reach_store_ok _ Hr) Hs) as [[Ha _]|(re & Hre & _ & _)].
   - left. by rewrite Ha.
   - apply (rstep_count_ok _ _ _ _ p (reach_inv _ Hr) Hre).
 Qed.
@@ -31,7 +32,7 @@ Proof. unfold sbounded, bounded. split; intros H p; specialize (H p); by rewrite
 Lemma sys_step_bounded s e s' r : reach s → sbounded s → step s e = Some (s', r) → no_reload e → sbounded s'.
 Proof.
   intros Hr Hb Hs Hnr. apply sbounded_abs. apply sbounded_abs in Hb.
-  destruct (refine_step s e s' r (reach_inv _ Hr) Hs) as [[Ha _]|(re & Hre & Hrel)].
+  destruct (refine_step s e s' r (reach_inv _ Hr) (reach_store_ok _ Hr) Hs) as [[Ha _]|(re & Hre & Hrel & _)].
   - by rewrite Ha.
   - eapply rstep_bounded; [by apply reach_inv|done|done|]. intros ds ->. by apply (Hnr ds), Hrel.
 Qed.
@@ -50,7 +51,7 @@ Proof. intros p. unfold running_count. simpl. lia. Qed.
 Lemma sys_step_defs s e s' r : reach s → step s e = Some (s', r) → no_reload e → st_defs s' = st_defs s.
 Proof.
   intros Hr Hs He. pose proof (reach_inv _ Hr) as Hinv.
-  destruct (refine_step s e s' r Hinv Hs) as [[Ha _]|(re & Hre & Hrel)].
+  destruct (refine_step s e s' r Hinv (reach_store_ok _ Hr) Hs) as [[Ha _]|(re & Hre & Hrel & _)].
   - change (st_defs s') with (rs_defs (abs s')). by rewrite Ha.
   - change (st_defs s') with (rs_defs (abs s')). change (st_defs s) with (rs_defs (abs s)).
     eapply rstep_defs; [done|]. intros ds' ->. by apply (He ds'), Hrel.
@@ -133,7 +134,7 @@ Proof.
   inversion Hnr as [|? ? He Hevs]; subst.
   destruct (step s e) as [[s' r]|] eqn:Hs; [|by apply IH].
   apply IH; [by eapply reach_step| |done].
-  destruct (refine_step s e s' r (reach_inv _ Hr) Hs) as [[Ha _]|(re & Hre & Hrel)].
+  destruct (refine_step s e s' r (reach_inv _ Hr) (reach_store_ok _ Hr) Hs) as [[Ha _]|(re & Hre & Hrel & _)].
   - unfold squeue_bounded. by rewrite Ha.
   - eapply rstep_queue_bounded; [by apply reach_inv|done|done|]. intros ds ->. by apply (He ds), Hrel.
 Qed.
@@ -153,31 +154,32 @@ Proof.
 Qed.
 
 (** ** monotone facts about jobs (C04, C07, C15, C16) *)
-Lemma sys_step_mono s e s' r : reach s → step s e = Some (s', r) → state_mono (abs s) (abs s').
+Lemma sys_step_mono s e s' r : reach s → step s e = Some (s', r) → no_restart e → state_mono (abs s) (abs s').
 Proof.
-  intros Hr Hs. destruct (refine_step s e s' r (reach_inv _ Hr) Hs) as [[-> _]|(re & Hre & _)].
+  intros Hr Hs Hnr. destruct (refine_step s e s' r (reach_inv _ Hr) (reach_store_ok _ Hr) Hs) as [[-> _]|(re & Hre & _ & Hrs)].
   - apply state_mono_refl.
-  - by eapply rstep_mono.
+  - eapply rstep_mono; [done|]. intros js ->. by apply Hnr, (Hrs js).
 Qed.
 
-Lemma sys_exec_mono s evs : reach s → state_mono (abs s) (abs (exec s evs)).
+Lemma sys_exec_mono s evs : reach s → Forall no_restart evs → state_mono (abs s) (abs (exec s evs)).
 Proof.
-  revert s. induction evs as [|e evs IH]; intros s Hr; simpl; [apply state_mono_refl|].
+  revert s. induction evs as [|e evs IH]; intros s Hr Hnr; simpl; [apply state_mono_refl|].
+  inversion Hnr as [|? ? He Hevs]; subst.
   destruct (step s e) as [[s' r]|] eqn:Hs; [|by apply IH].
-  eapply state_mono_trans; [by eapply sys_step_mono|]. apply IH. by eapply reach_step.
+  eapply state_mono_trans; [by eapply sys_step_mono|]. apply IH; [by eapply reach_step|done].
 Qed.
 
 Definition job_snapshot (j : job) := (j_pipe j, j_delay j, j_env j, j_vars j, j_user j, job_graph j).
 
 (** everything a job took from its definition and request stays as it was, whatever happens later *)
 Lemma sys_snapshot_immutable s evs id j :
-  reach s → get_job s id = Some j →
+  reach s → Forall no_restart evs → get_job s id = Some j →
   ∃ j', get_job (exec s evs) id = Some j' ∧ job_snapshot j' = job_snapshot j
         ∧ (j_canceled j = true → j_canceled j' = true) ∧ (j_completed j = true → j_completed j' = true)
         ∧ (is_Some (j_start j) → is_Some (j_start j'))
         ∧ (j_canceled j = true → j_start j = None → j_start j' = None ∧ j_sched j' = None).
 Proof.
-  intros Hr Hj. pose proof (sys_exec_mono s evs Hr id (abs_job j)) as H.
+  intros Hr Hnr Hj. pose proof (sys_exec_mono s evs Hr Hnr id (abs_job j)) as H.
   rewrite abs_lookup in H. unfold get_job in *. rewrite Hj in H. destruct (H eq_refl) as (rj' & Hj' & Hm).
   rewrite abs_lookup in Hj'. destruct (st_jobs (exec s evs) !! id) as [j'|] eqn:E; [|done].
   injection Hj' as <-. exists j'. split; [done|].
@@ -229,11 +231,11 @@ Qed.
 
 (** ... and makes the job end as canceled, whatever happens in between *)
 Lemma cancel_request_ends_canceled s id j evs j' :
-  reach s → get_job s id = Some j → j_cancel_req j = true →
+  reach s → Forall no_restart evs → get_job s id = Some j → j_cancel_req j = true →
   get_job (exec s evs) id = Some j' → j_completed j' = true → j_canceled j' = true.
 Proof.
-  intros Hr Hj Hq Hj' Hc'.
-  pose proof (sys_exec_mono s evs Hr id (abs_job j)) as H.
+  intros Hr Hnr Hj Hq Hj' Hc'.
+  pose proof (sys_exec_mono s evs Hr Hnr id (abs_job j)) as H.
   rewrite abs_lookup in H. unfold get_job in *. rewrite Hj in H. destruct (H eq_refl) as (rj' & Hrj' & Hm).
   rewrite abs_lookup, Hj' in Hrj'. injection Hrj' as <-.
   destruct Hm as (_ & _ & _ & _ & _ & _ & _ & Hq' & _). simpl in Hq'.
